@@ -1,0 +1,44 @@
+//! Verification hooks (compiled only with `--cfg rsdd_verif`).
+//!
+//! Nothing here changes behaviour unless a test harness sets one of the
+//! overrides below; with the cfg flag off this module does not exist.
+use std::sync::atomic::{AtomicUsize, Ordering};
+
+pub use crate::backing_store::{BackedRobinhoodTable, UniqueTable};
+
+/// 0 = keep the library default
+static TABLE_CAPACITY: AtomicUsize = AtomicUsize::new(0);
+/// usize::MAX = keep the library default; otherwise the power of two to start with
+static LRU_CAPACITY: AtomicUsize = AtomicUsize::new(usize::MAX);
+
+/// Initial number of slots of every unique table created from now on (0 = default)
+pub fn set_table_capacity(cap: usize) {
+    TABLE_CAPACITY.store(cap, Ordering::SeqCst);
+}
+
+pub fn table_capacity() -> usize {
+    TABLE_CAPACITY.load(Ordering::SeqCst)
+}
+
+/// Initial capacity (as a power of two) of every lossy ITE cache created from
+/// now on (None = default)
+pub fn set_lru_capacity(cap: Option<usize>) {
+    LRU_CAPACITY.store(cap.unwrap_or(usize::MAX), Ordering::SeqCst);
+}
+
+pub fn lru_capacity() -> Option<usize> {
+    match LRU_CAPACITY.load(Ordering::SeqCst) {
+        usize::MAX => None,
+        c => Some(c),
+    }
+}
+
+/// One slot of a unique table, as seen from outside
+#[derive(Debug, Clone, Copy, PartialEq, Eq)]
+pub struct SlotView {
+    pub occupied: bool,
+    pub hash: u64,
+    pub psl: u8,
+    /// address of the stored element (0 if unoccupied)
+    pub addr: usize,
+}
